@@ -866,15 +866,40 @@ def c10(ctx):
     if r["status"] != "invariant":
         raise Broken("GmwPool.tla does not reject a Get that re-requests the full count after a partial take")
     ctx.cov["spec_rejects_deviations"] = ["get-takes-full-count"]
+    # (M) formation of the network (online + offline connection per pair, one accept loop per party)
+    gn = lambda n, of, le: ("SPECIFICATION Spec\nCONSTANTS\n  N = %d\n  OfflineFirst = %s\n  ListEarly = %s\n"
+                            "INVARIANT Safety\nPROPERTY Terminates\nCHECK_DEADLOCK FALSE\n" % (n, of, le))
+    for n in (2, 3, 4) + ((5,) if thorough else ()):
+        ctx.tlc_expect_ok("GmwNet", "GmwNet_mc.cfg", name="gmwnet-%d" % n, timeout=3400, cfg_text=gn(n, "FALSE", "FALSE"))
+    ctx.tlc_expect_ok("GmwNet", "GmwNet_mc.cfg", name="gmwnet-offline-first", timeout=3400, cfg_text=gn(4, "TRUE", "FALSE"))
+    r = ctx.tlc("GmwNet", "GmwNet_mc.cfg", name="gmwnet-guard", cfg_text=gn(3, "FALSE", "TRUE"))
+    if r["status"] != "invariant":
+        raise Broken("GmwNet.tla does not reject a peer list sent before all joiners are registered (%s)" % r["status"])
+    ctx.cov["spec_rejects_deviations"].append("peer-list-before-all-joined")
     # (T) real runs
     trace = os.path.join(ctx.tmp, "gmw_trace.ndjson")
     res = os.path.join(ctx.tmp, "c10res.ndjson")
-    ctx.run_vh(["c10", "run", trace, res, 64 if thorough else 12], timeout=3400)
-    n = ctx.absorb(res)
-    rows = read_ndjson(trace)
+    def run_or_crash(args, what):
+        """a Go runtime crash in a library goroutine while the parties run the protocol (nil connection, index out of
+        range ...) is the protocol not completing, not a failure of the machinery"""
+        p = ctx.run_vh(args, check=False, timeout=3400)
+        if p.returncode != 0:
+            err = p.stderr or ""
+            if any(s in err for s in ("panic:", "fatal error:", "SIGSEGV", "unexpected fault address")):
+                first = next((l for l in err.splitlines() if l.startswith(("panic:", "fatal error:"))), err[:200])
+                ctx.violation("crash:process-died:" + what, "the process dies while the parties run %s: %s" % (what, first[:200]), err[:3000])
+                return False
+            raise Broken("harness failed rc=%d: %s" % (p.returncode, err[-2000:]))
+        return True
+
+    ran = run_or_crash(["c10", "run", trace, res, 64 if thorough else 12], "the protocol")
+    n = ctx.absorb(res) if os.path.exists(res) else 0
+    rows = read_ndjson(trace) if os.path.exists(trace) else []
     ctx.cov["trace_events"] = len(rows)
-    t = ctx.tlc("GmwTrace", "GmwTrace.cfg", mode="trace", files=[trace], timeout=3000)
-    if t["status"] == "invariant" and t.get("which") in ("TripleOK", "AndOK"):
+    t = ctx.tlc("GmwTrace", "GmwTrace.cfg", mode="trace", files=[trace], timeout=3000) if ran and rows else {"status": "skipped"}
+    if t["status"] == "skipped":
+        pass
+    elif t["status"] == "invariant" and t.get("which") in ("TripleOK", "AndOK"):
         ctx.violation("trace:" + t["which"], "recorded shares of a real run violate GmwTrace.%s" % t["which"], t["out"][-2000:])
     elif t["status"] == "invariant":
         ctx.drift.append("GmwTrace.%s fails: the shares no longer follow the formulas of Gmw.tla" % t.get("which"))
@@ -884,8 +909,8 @@ def c10(ctx):
         ctx.cov["traces_validated_against_impl"] += n
     # the triple pool alone: identical Get sequences at different paces
     pres = os.path.join(ctx.tmp, "c10pool.ndjson")
-    ctx.run_vh(["c10", "pool", pres, 12 if thorough else 3], timeout=3400)
-    ctx.absorb(pres)
+    if not ctx.violations and run_or_crash(["c10", "pool", pres, 12 if thorough else 3], "the triple pool"):
+        ctx.absorb(pres)
     # binding self-test: flip one recorded c share
     r2 = [json.loads(json.dumps(x)) for x in rows]
     i = next((i for i, x in enumerate(r2) if x["ev"] == "bit"), None)
